@@ -125,6 +125,14 @@ def cmd (name : String) : P String := do
       let l := v.toList.map (fun ((a, b), c) => (cirqIndex norb a b, GQ.signed (cirqSign norb a b) c))
       let l := (l.toArray.qsort (fun x y => x.1 < y.1)).toList
       return " ".intercalate (toString l.length :: l.map (fun (i, c) => s!"{i} {c.toStr}"))
+  -- export under a linear binary code: `<norb> <2norb column masks> vec`
+  | "tocirq_code" => do
+      let norb ← nat
+      let cols ← many (2 * norb) nat
+      let v ← vec
+      let l := v.toList.map (fun ((a, b), c) => (cirqIndexCode norb cols a b, GQ.signed (cirqSign norb a b) c))
+      let l := (l.toArray.qsort (fun x y => x.1 < y.1)).toList
+      return " ".intercalate (toString l.length :: l.map (fun (i, c) => s!"{i} {c.toStr}"))
   | "cirqindex" => do
       let norb ← nat; let a ← nat; let b ← nat
       return s!"{cirqIndex norb a b} {b2n (cirqSign norb a b)} {b2n (embedSign norb a b)}"
